@@ -72,7 +72,7 @@ def tag_docs(rng, tag, n):
     out = []
     for k in range(n):
         variant = ['empty', 'minimal', 'rich', 'nested-message-names', 'body-first', 'extra-envelope', 'attrs',
-                   'foreign-ns-message-name', 'root-default-ns', 'doctype', 'noise'][k % 11]
+                   'foreign-ns-message-name', 'root-default-ns', 'doctype', 'noise', 'duplicate-story-ids'][k % 12]
         m = E(tag)
         if tag == 'roElementAction':
             m.set('operation', 'DELETE')
@@ -80,6 +80,9 @@ def tag_docs(rng, tag, n):
             m.append(E('element_source', None, E('storyID', 'A')))
         elif variant != 'empty':
             m.append(E('roID', 'RO'))
+        if variant == 'duplicate-story-ids' and tag != 'roElementAction':
+            for sid_ in ('A', 'B', 'A'):          # the payload repeats a story ID: irrelevant to classification
+                m.append(gen.simple_story(sid_, 1))
         if variant in ('rich', 'nested-message-names') and tag != 'roElementAction':
             m.append(gen.rich_blob(rng, 3, pool, 'payload'))
         if variant == 'nested-message-names' and tag != 'roElementAction':
@@ -207,7 +210,7 @@ def run(s):
     tmpdir = tempfile.mkdtemp(prefix='verif-c08-')
     try:
         idx = 0
-        per_tag = 11 if q else 440
+        per_tag = 12 if q else 480
         for tag in MESSAGE_TAGS:
             rng = s.rng('tag', tag)
             for variant, doc in tag_docs(rng, tag, per_tag):
